@@ -819,6 +819,23 @@ func c20Sig(r *fw.Run, p *fw.Program) {
 		ru.Undecided("anchor:bridge goroutine", p.Rel(nso.Pos()), "newStandardOS starts no goroutine closure")
 		return
 	}
+	// the bridge stays armed: nothing in pkg/cli hands os.Interrupt back to the runtime's default action or
+	// drops it while fq runs (signal.Reset / signal.Ignore): after that the next interrupt kills the process
+	// instead of cancelling the innermost evaluation
+	{
+		bad := ""
+		for _, fn := range p.FqFunctions() {
+			if pkgRel(fn) != "pkg/cli" {
+				continue
+			}
+			for _, c := range fw.CallsIn(fn) {
+				if cal := c.Common().StaticCallee(); cal != nil && (cal.String() == "os/signal.Reset" || cal.String() == "os/signal.Ignore") {
+					bad = cal.String() + " in " + fw.ShortFn(fn) + " at " + p.Rel(c.Pos())
+				}
+			}
+		}
+		ru.Check(bad == "", "bridge stays armed", p.Rel(nso.Pos()), "pkg/cli never resets or ignores the interrupt signal", "pkg/cli calls "+bad+": from then on an interrupt is no longer bridged to the interrupt stack (with Reset the next ctrl-c terminates fq without cancelling the innermost evaluation or running Stop, with Ignore it is lost)")
+	}
 	bufOf := func(v ssa.Value) (*ssa.MakeChan, int64) {
 		mc, ok := fw.C20Resolve(v).(*ssa.MakeChan)
 		if !ok {
